@@ -251,6 +251,16 @@ PROBES = [
      ["c28", "whole", "forall-effect", "compile-raises", "UPUnboundedVariablesError"],
      "TimedToSequential.supported_kind has FORALL_EFFECTS but _compile re-adds effects without their forall variables: "
      "compile raises UPUnboundedVariablesError on a durative action with a quantified effect"),
+    ("alias_two_end_increases", "C28-F28w-alias-end-increases", ("verdicts", "VALID", "INVALID"),
+     ["c28", "whole", "alias-two-end-increases", "seq-valid-tt-invalid"],
+     "TimedToSequential turns two END increases n(x) += 1, n(y) += 1 into two assignments n(x) := n(x)+1, n(y) := n(y)+1; "
+     "for x = y both assign the same value (sequential result n+1) while temporally the increases accumulate (n+2): "
+     "plan a(o1,o1); b with b requiring n(o1) <= 1 is VALID compiled, its conversion is rejected by TimeTriggeredPlanValidator"),
+    ("alias_two_bool_start_assignments", "C28-F28w-alias-bool-start", ("verdicts", "VALID", "INVALID"),
+     ["c28", "whole", "alias-two-bool-start-assignments", "seq-valid-tt-invalid"],
+     "TimedToSequential: two Boolean START assignments b := true; b := false give the substitution b -> false (last "
+     "wins), so the over-all condition not b becomes TRUE and is dropped, while the joint temporal application makes b "
+     "true: compiled plan VALID, converted plan rejected by TimeTriggeredPlanValidator"),
 ]
 
 
